@@ -1211,7 +1211,7 @@ def empty_selection_check(ctx, S):
 
 
 def run(ctx):
-    ctx.build(FILES)
+    ctx.build_with_translator(FILES)
     ctx.cov['rule'] = ('histories on real SourceCatalog / ApertureStats objects built on small scenes (blobs, flat 2-pixel, '
                        '1-pixel, fully masked, NaN-pixel, negative, frame-edge sources; options error/mask/background/'
                        'wcs/localbkg_width/kron_params(2,3)/apermask_method/detection_cat/units): random subset of '
